@@ -534,7 +534,7 @@ fn pivot_dense_checks(r: &mut Report) {
 }
 
 pub fn run() -> Option<Report> {
-    let mut r = Report::new("k-d trees: 7x7 2D grid + 4 duplicates, 5x5x2 3D grid + 3 duplicates, and (tagged, known dependency defect) a 5x4x3 and a 33x3 grid, 3x3 grid + 1 duplicate; queries = data points, cell centres, off-grid and outside points; k in {1,2,5}; radii {0,0.3,0.75,1.2,1.5,2.1,2.5} (hits within 1e-9 of the boundary not judged) and, at every data point, the exact-tie radii {1,2,5} (7x7), {1,2} (3x3), {1,2,3} (5x5x2) judged as the open ball d < r; PartialKdTree over 5 index lists (subsets, permuted and reversed full-length lists); Poisson disk over the same clouds, 6 working lists x radii {0.5,1.2,1.5,2.1}; hulls of 6 integer point sets, 4 simple polygons in both orientations, 6 outlines with exactly 3, 4, 5 hull vertices x every start vertex x both orientations; mesh sampling on 5 meshes (2 with a zero-area face), uniform n=3000, dense spacing {0.3,0.45,4}, Poisson radius {0.4,0.9}, dense / Poisson also on 4 meshes with a positive-area sliver face that has no computable normal (|ab x ac| = 2^-54) before faces of other orientations; ball pivot (radius 2) on a 12-point ring + an extra point at pivot angle {0.05,1e-2,3e-4}; ROUND 4: convex_hull_2d / point_order_direction on 8 outlines with every vertex listed 2 / 3 times in a row (alone and with a second doubled vertex), both orientations; ball pivot (radius 2, Ccw and Cw, 2 starts) around a ring of 60 points of radius 10 with a dense cluster of 8 / 40 / 80 interior points 0.2 .. 0.6 behind ring vertex 10 / 25 / 47 (all closer to it than its ring neighbours)");
+    let mut r = Report::new("k-d trees: 7x7 2D grid + 4 duplicates, 5x5x2 3D grid + 3 duplicates, and (tagged, known dependency defect) a 5x4x3 and a 33x3 grid, 3x3 grid + 1 duplicate; queries = data points, cell centres, off-grid and outside points; k in {1,2,5}; radii {0,0.3,0.75,1.2,1.5,2.1,2.5} (hits within 1e-9 of the boundary not judged) and, at every data point, the exact-tie radii {1,2,5} (7x7), {1,2} (3x3), {1,2,3} (5x5x2) judged as the open ball d < r; PartialKdTree over 5 index lists (subsets, permuted and reversed full-length lists); Poisson disk over the same clouds, 6 working lists x radii {0.5,1.2,1.5,2.1}; hulls of 6 integer point sets, 4 simple polygons in both orientations, 6 outlines with exactly 3, 4, 5 hull vertices x every start vertex x both orientations; mesh sampling on 5 meshes (2 with a zero-area face), uniform n=3000, dense spacing {0.3,0.45,4}, Poisson radius {0.4,0.9}, dense / Poisson also on 4 meshes with a positive-area sliver face that has no computable normal (|ab x ac| = 2^-54) before faces of other orientations; ball pivot (radius 2) on a 12-point ring + an extra point at pivot angle {0.05,1e-2,3e-4}; ROUND 4: convex_hull_2d / point_order_direction on 8 outlines with every vertex listed 2 / 3 times in a row (alone and with a second doubled vertex), both orientations; ball pivot (radius 2, Ccw and Cw, 2 starts) around a ring of 60 points of radius 10 with a dense cluster of 8 / 40 / 80 interior points 0.2 .. 0.6 behind ring vertex 10 / 25 / 47 (all closer to it than its ring neighbours); WAVE 5: rank-1 lattices without equal coordinates (37, 67, 131, 1009, 4099 points in 2D and 3D; 131 points scaled by 1e-9 .. 1e3 at offsets up to 1e8): KdTree and PartialKdTree over 9 index lists (none, identity, halves, unsorted subsets, one, two, repeated indices), len / is_empty / nearest_one / nearest(k in {1,2,5,33,n-1,n,n+1,2n+7}) / within(6 radii up to 1e160), within one ulp above / below a stored distance (exact integer offsets of length 1, 3, 4, 5, 7, 13); Poisson disk on the same clouds, 9 visiting orders x 11 radii (0, half / exactly / one ulp above the smallest spacing, exactly a pairwise distance, the diameter, 1e160) and exact-tie radii on the unit grids; mesh sampling on 13 disjoint rotated triangles (right / obtuse / sharp angle at each vertex, equilateral, sliver, needle) at 6 scales / offsets, uniform n in {0,1,2,20000}, area proportion (8 sigma + 8) also on faces with area shares 0.9 / 1e-9 / 1e-3 / 0.1 (n = 200000), Poisson separation / coverage on tie-free candidates; convex_hull_2d on 11 point sets (grids, 1009-point lattice, 1000 points on an ellipse, collinear, 2 and 3 points) x 7 scales / offsets; farthest_pair_indices on 16 convex polygons (blunt-nosed wedges, triangles, parallel edges, ties, 1000 vertices) x every start vertex x 4 scales / offsets; point_order_direction and Curve2::from_points_ccw (tol, force_closed) on 7 outlines x every start vertex x both orientations x 6 scales / offsets, gears / ellipses of 1000 and 70000 points; ball pivot: every BallPivotStart / BallPivotEnd variant, both directions, ball_pivot_2d, ball_pivot_fill_gaps_2d on a ring, an uneven ellipse, a ring with a doubled point, a rotated L-shaped outline at 6 scales / offsets, radii 1.4 .. 50, an open chain (end to end, and round its dead end), a filled 7x7 grid");
     // k-d trees
     let c2 = cloud2(7, 7, &[0, 10, 24, 48]);
     search_checks(&mut r, "", "7x7 grid + duplicates of points 0, 10, 24, 48", &c2, &queries2(&c2, 7, 7));
@@ -593,6 +593,7 @@ pub fn run() -> Option<Report> {
     // ball pivoting
     pivot_checks(&mut r);
     pivot_dense_checks(&mut r);
+    wave5(&mut r);
     // LAST (so that these listed failures cannot crowd out others):
     // point sets on which kiddo 5.0.3 builds a leaf with more than 32 items (ties on the split axis push the pivot):
     // its nearest_n_within leaf code then reports the item ids of the first chunk for the items of the remainder.
@@ -603,4 +604,822 @@ pub fn run() -> Option<Report> {
     search_checks(&mut r, KIDDO, "33x3 grid", &g2, &g2.clone());
     poisson_checks(&mut r, KIDDO, "5x4x3 grid", &g3);
     Some(r)
+}
+
+// ================================================================================================ WAVE 5
+// parameter-space audit (notes/w5_audit_C15.md): sizes past 32 / 64 / 1000 / 4096 on clouds WITHOUT equal coordinates on
+// any axis (so that the kiddo leaf defect cannot interfere), coordinates far from the origin and tiny / huge extents,
+// k up to and past n, radius 0 / one ulp either side of a stored distance / huge, empty / single / duplicated / unsorted
+// index lists, every BallPivotStart / BallPivotEnd variant, ball_pivot_2d, ball_pivot_fill_gaps_2d, Curve2::from_points_ccw.
+fn rclose(a: f64, b: f64) -> bool { a == b || (a - b).abs() <= 1e-9 * a.abs().max(b.abs()) }
+fn ulp_up(x: f64) -> f64 { f64::from_bits(x.to_bits() + 1) }
+fn ulp_down(x: f64) -> f64 { f64::from_bits(x.to_bits() - 1) }
+fn short(v: &[usize]) -> String { if v.len() <= 10 { format!("{:?}", v) } else { format!("{:?}.. ({} indices)", &v[..10], v.len()) } }
+
+/// rank-1 lattice: point i = off + scale * (i, i*a mod n, i*b mod n); n prime, so on every axis all n coordinates are
+/// DISTINCT (no two points share a coordinate: every kiddo leaf stays within its 32 items)
+fn lattice<const D: usize>(n: usize, scale: f64, off: [f64; D]) -> Vec<Point<f64, D>> {
+    let mult = [1usize, ((n as f64) * 0.6180339887) as usize, ((n as f64) * 0.4142135624) as usize];
+    (0..n).map(|i| { let mut c = [0.0; D]; for k in 0..D { c[k] = off[k] + scale * (((i * mult[k]) % n) as f64); } Point::from(c) }).collect()
+}
+fn with_repeats<const D: usize>(p: &[Point<f64, D>]) -> Vec<Point<f64, D>> {
+    let mut v = Vec::new();
+    for (i, q) in p.iter().enumerate() { for _ in 0..(if i == 5 || i == p.len() - 1 { 2 } else if i == 20 { 3 } else { 1 }) { v.push(*q); } }
+    v
+}
+fn max_axis_multiplicity<const D: usize>(pts: &[Point<f64, D>]) -> usize {
+    let mut worst = 0;
+    for k in 0..D {
+        let mut v: Vec<u64> = pts.iter().map(|p| p[k].to_bits()).collect();
+        v.sort();
+        let mut run = 1;
+        for w in 1..v.len() { if v[w] == v[w - 1] { run += 1; } else { worst = worst.max(run); run = 1; } }
+        worst = worst.max(run);
+    }
+    worst
+}
+
+const W5: &str = "large / scaled / offset clouds: ";
+
+/// `cand` may name an index more than once (then results are compared as multisets and "no index twice" is not demanded)
+fn check_search_w5<const D: usize, T: KdTreeSearch<D>>(r: &mut Report, name: &str, tree: &T, all: &[Point<f64, D>], cand: &[usize], queries: &[Point<f64, D>], ks: &[usize], radii: &[f64]) {
+    let cset: BTreeSet<usize> = cand.iter().copied().collect();
+    let dup_free = cset.len() == cand.len();
+    r.check(tree.len() == cand.len(), &format!("{}len() is the number of indexed points", W5), || format!("{}: len {} vs {}", name, tree.len(), cand.len()));
+    r.check(tree.is_empty() == cand.is_empty(), &format!("{}is_empty() iff no point is indexed", W5), || format!("{}: is_empty {} for {} points", name, tree.is_empty(), cand.len()));
+    for q in queries.iter() {
+        r.case();
+        let mut bf: Vec<(f64, usize)> = cand.iter().map(|&i| (d(&all[i], q), i)).collect();
+        bf.sort_by(|a, b| a.partial_cmp(b).unwrap());
+        if !cand.is_empty() {
+            let Ok((i1, d1)) = catch_unwind(AssertUnwindSafe(|| tree.nearest_one(q))) else { r.check(false, &format!("{}the queries do not panic", W5), || format!("{}: nearest_one({})", name, show(q))); continue; };
+            let dq = || format!("{}: nearest_one({}) = ({}, {:e}), brute force {:?}", name, show(q), i1, d1, bf[0]);
+            r.check(cset.contains(&i1), &format!("{}nearest_one: the index is an original index of an indexed point", W5), dq);
+            r.check(rclose(d1, bf[0].0), &format!("{}nearest_one: the distance is the brute-force minimum", W5), dq);
+            r.check(i1 < all.len() && rclose(d(&all[i1], q), d1), &format!("{}nearest_one: the reported distance is the distance to the reported point", W5), dq);
+        }
+        for &k in ks.iter() {
+            let Ok(res) = catch_unwind(AssertUnwindSafe(|| tree.nearest(q, NonZero::new(k).unwrap()))) else { r.check(false, &format!("{}the queries do not panic", W5), || format!("{}: nearest({}, {})", name, show(q), k)); continue; };
+            let dk = || format!("{}: nearest({}, {}) = {} results, first {:?}", name, show(q), k, res.len(), &res[..res.len().min(6)]);
+            let want = k.min(cand.len());
+            r.check(res.len() == want, &format!("{}nearest(k): min(k, n) results", W5), dk);
+            r.check(res.windows(2).all(|w| w[0].1 <= w[1].1), &format!("{}nearest(k): results are ordered nearest first", W5), dk);
+            if dup_free { r.check(res.iter().map(|x| x.0).collect::<BTreeSet<_>>().len() == res.len(), &format!("{}nearest(k): no index twice", W5), dk); }
+            r.check(res.iter().all(|x| cset.contains(&x.0)), &format!("{}nearest(k): indices are original indices of indexed points", W5), dk);
+            r.check(res.iter().all(|x| x.0 < all.len() && rclose(d(&all[x.0], q), x.1)), &format!("{}nearest(k): each distance is the distance to the reported point", W5), dk);
+            r.check(res.len() == want && res.iter().zip(bf.iter()).all(|(x, b)| rclose(x.1, b.0)), &format!("{}nearest(k): the distances are the k smallest brute-force distances", W5), dk);
+        }
+        for &rad in radii.iter() {
+            let Ok(res) = catch_unwind(AssertUnwindSafe(|| tree.within(q, rad))) else { r.check(false, &format!("{}the queries do not panic", W5), || format!("{}: within({}, {:e})", name, show(q), rad)); continue; };
+            let dw = || format!("{}: within({}, {:e}) = {} results, first {:?}", name, show(q), rad, res.len(), &res[..res.len().min(6)]);
+            let mut got: Vec<usize> = res.iter().map(|x| x.0).collect();
+            got.sort();
+            if dup_free { r.check(got.windows(2).all(|w| w[0] != w[1]), &format!("{}within: no index twice", W5), dw); }
+            r.check(res.iter().all(|x| x.0 < all.len() && cset.contains(&x.0) && rclose(d(&all[x.0], q), x.1)), &format!("{}within: each result is an indexed point with its distance", W5), dw);
+            r.check(res.iter().all(|x| x.1 <= rad * (1.0 + 1e-12)), &format!("{}within: every result is within the radius", W5), dw);
+            let on_boundary = bf.iter().any(|b| (b.0 - rad).abs() <= 1e-9 * rad);
+            if !on_boundary {
+                let mut want: Vec<usize> = bf.iter().filter(|b| b.0 <= rad).map(|b| b.1).collect();
+                want.sort();
+                r.check(got == want, &format!("{}within: exactly the points within the radius (brute force)", W5), || format!("{} expected {} results {}", dw(), want.len(), short(&want)));
+            }
+        }
+    }
+}
+
+fn index_lists_w5(n: usize) -> Vec<(&'static str, Vec<usize>)> {
+    let perm = |i: usize| (i * 7 + 3) % n; // n prime > 7
+    vec![
+        ("no index", vec![]),
+        ("the identity list", (0..n).collect()),
+        ("the first half in order", (0..n / 2).collect()),
+        ("the second half in order", (n / 2..n).collect()),
+        ("an unsorted strict subset", (0..n / 2).map(perm).collect()),
+        ("an unsorted strict subset of the high indices", (0..n).map(perm).filter(|&i| i >= n - n / 3).collect()),
+        ("two indices, descending", vec![n - 1, 1]),
+        ("one index", vec![n - 2]),
+        ("a list naming indices twice and three times", vec![n - 1, 4, 4, 2, n - 1, 4, n / 2]),
+    ]
+}
+
+/// queries for a cloud: some data points, points between consecutive data points, points far outside
+fn queries_w5<const D: usize>(pts: &[Point<f64, D>], unit: f64) -> Vec<Point<f64, D>> {
+    let n = pts.len();
+    let step = (n / 12).max(1);
+    let mut q: Vec<Point<f64, D>> = (0..n).step_by(step).map(|i| pts[i]).collect();
+    for i in (0..n - 1).step_by(step) { q.push(Point::from((pts[i].coords * 0.625 + pts[i + 1].coords * 0.375) + pts[0].coords * 0.0)); }
+    let mut far = pts[0].coords;
+    far[0] -= 3.7 * unit * n as f64;
+    q.push(Point::from(far));
+    let mut far2 = pts[n / 2].coords;
+    far2[D - 1] += 1.0e6 * unit;
+    q.push(Point::from(far2));
+    q
+}
+
+fn search_family<const D: usize>(r: &mut Report, cname: &str, pts: &[Point<f64, D>], unit: f64) {
+    let n = pts.len();
+    r.check(max_axis_multiplicity(pts) <= 3, "input space: no two DIFFERENT points of the large / scaled clouds share a coordinate on any axis (a point is listed at most 3 times)", || format!("{}: {}", cname, max_axis_multiplicity(pts)));
+    let sp = unit * (n as f64).powf(1.0 - 1.0 / D as f64); // typical spacing of n lattice points in a box of side n
+    let queries = queries_w5(pts, unit);
+    let ks = [1usize, 2, 5, 33, n - 1, n, n + 1, 2 * n + 7];
+    let radii = [0.37 * sp, 0.81 * sp, 1.53 * sp, 2.57 * sp, 1.0e4 * sp * n as f64, 1.0e160];
+    let all: Vec<usize> = (0..n).collect();
+    check_search_w5(r, &format!("KdTree over {}", cname), &KdTree::new(pts), pts, &all, &queries, &ks, &radii);
+    for (lname, list) in index_lists_w5(n) {
+        // the full query set on the small clouds; on the large ones every third query keeps the cost down
+        let qs: Vec<Point<f64, D>> = if n <= 200 { queries.clone() } else { queries.iter().step_by(3).copied().collect() };
+        let m = list.len();
+        let ks: Vec<usize> = [1usize, 2, 5, m.saturating_sub(1), m, m + 1, 2 * m + 7].iter().copied().filter(|&k| k > 0).collect();
+        check_search_w5(r, &format!("PartialKdTree over {} / {} {}", cname, lname, short(&list)), &PartialKdTree::new(pts, &list), pts, &list, &qs, &ks, &radii);
+    }
+}
+
+/// within(r) for r = a stored distance exactly (open ball: not reported), one ulp above it (reported), one ulp below
+/// it (not reported) and r = 0.  The cloud has integer coordinates times a power of two, the query is a data point
+/// plus `s` times an integer vector of integer length, so every squared distance is computed exactly.
+fn ulp_checks<const D: usize>(r: &mut Report, cname: &str, pts: &[Point<f64, D>], s: f64, offsets: &[([f64; D], f64)], judge_ties: bool) {
+    let n = pts.len();
+    let lists: Vec<(&str, Vec<usize>)> = vec![("", (0..n).collect()), (" / PartialKdTree over an unsorted strict subset", (0..n).map(|i| (i * 7 + 3) % n).filter(|i| i % 3 != 1).collect())];
+    let mut tied = 0usize;
+    for (lname, list) in lists.iter() {
+        let full = KdTree::new(pts);
+        let part = PartialKdTree::new(pts, list);
+        for &i in list.iter().step_by((list.len() / 16).max(1)) {
+            for (v, len) in offsets.iter() {
+                let mut c = pts[i].coords;
+                for k in 0..D { c[k] += s * v[k]; }
+                let q: Point<f64, D> = Point::from(c);
+                let l = s * len;
+                let d2: Vec<f64> = list.iter().map(|&j| (pts[j] - q).norm_squared()).collect();
+                r.check(*len == 0.0 || d2.iter().any(|&x| x == l * l), "input space: the ulp inputs hold a point at exactly the stated distance from the query", || format!("{}: point {} + {:?} * {:e}", cname, i, v, s));
+                let mut kinds: Vec<(&str, f64)> = if *len == 0.0 { vec![("0", 0.0)] } else { vec![("exactly a stored distance", l), ("one ulp above a stored distance", ulp_up(l)), ("one ulp below a stored distance", ulp_down(l))] };
+                // kiddo answers a point EXACTLY on the radius differently on different leaf paths (props/C15.json, assumptions):
+                // the exact tie is judged (open ball) only on the small clouds of wave 3
+                if !judge_ties { kinds.retain(|k| k.0.starts_with("one ulp")); }
+                for (kind, rad) in kinds {
+                    r.case();
+                    let res = if lname.is_empty() { full.within(&q, rad) } else { part.within(&q, rad) };
+                    let mut got: Vec<usize> = res.iter().map(|x| x.0).collect();
+                    got.sort();
+                    let above = rad > l;
+                    let mut want: Vec<usize> = list.iter().zip(d2.iter()).filter(|(_, &x)| x < l * l || (above && x == l * l)).map(|(&j, _)| j).collect();
+                    want.sort();
+                    tied += d2.iter().filter(|&&x| x == l * l).count();
+                    let dw = || format!("KdTree over {}{}: within({}, {:e} = {}) = {:?}, expected {}", cname, lname, show(&q), rad, kind, &res[..res.len().min(8)], short(&want));
+                    match kind {
+                        "one ulp above a stored distance" => r.check(got == want, "within one ulp above a stored distance: the points at that distance are reported (brute force on exact squared distances)", dw),
+                        "one ulp below a stored distance" => r.check(got == want, "within one ulp below a stored distance: the points at that distance are not reported (brute force on exact squared distances)", dw),
+                        _ => r.check(got == want, "within at exact ties: agrees with brute force d < r", dw),
+                    }
+                    r.check(res.iter().all(|x| x.0 < n && d(&pts[x.0], &q) == x.1), "within at exact ties: each reported distance is the distance to the reported point", dw);
+                }
+            }
+        }
+    }
+    r.check(tied > 0, "input space: the tie inputs contain points exactly on the radius", || format!("{}: no exact tie", cname));
+}
+
+// ------------------------------------------------------------------------------------------------ wave 5: Poisson disk
+/// `exact`: integer (times a power of two) coordinates - distances that matter are exact, so the clauses are evaluated
+/// with plain comparisons: separation is violated by two kept points STRICTLY closer than the radius, coverage is
+/// satisfied by a kept point at distance <= radius (the two readings of "within the radius" that hold whichever way a
+/// point exactly on the radius is treated).  Otherwise a relative slack of 1e-12 is used.
+fn poisson_family<const D: usize>(r: &mut Report, cname: &str, pts: &[Point<f64, D>], lists: &[(String, Vec<usize>)], radii: &[(String, f64)], exact: bool) {
+    let n = pts.len();
+    let slack = if exact { 0.0 } else { 1e-12 };
+    for (lname, work) in lists.iter() {
+        for (rname, rad) in radii.iter() {
+            r.case();
+            let keep = match catch_unwind(AssertUnwindSafe(|| sample_poisson_disk(pts, work, *rad))) {
+                Ok(k) => k,
+                Err(_) => { r.check(false, "Poisson disk (large / scaled / offset clouds, all visiting orders): does not panic", || format!("sample_poisson_disk({}, working = {} {}, radius {:e} = {})", cname, lname, short(work), rad, rname)); continue; }
+            };
+            let dsc = || format!("sample_poisson_disk({}, working = {} {}, radius {:e} = {}) = {}", cname, lname, short(work), rad, rname, short(&keep));
+            let wset: BTreeSet<usize> = work.iter().copied().collect();
+            r.check(keep.iter().all(|i| wset.contains(i)), "Poisson disk (large / scaled / offset clouds, all visiting orders): the result is a subset of the working indices", dsc);
+            r.check(keep.iter().collect::<BTreeSet<_>>().len() == keep.len(), "Poisson disk (large / scaled / offset clouds, all visiting orders): no index is kept twice", dsc);
+            if keep.iter().any(|&k| k >= n) { continue; }
+            let mut bad = None;
+            'o: for a in 0..keep.len() { for b in a + 1..keep.len() {
+                if d(&pts[keep[a]], &pts[keep[b]]) < rad * (1.0 - slack) { bad = Some((keep[a], keep[b])); break 'o; }
+            } }
+            r.check(bad.is_none(), "Poisson disk (large / scaled / offset clouds, all visiting orders): no two kept points are strictly closer than the radius", || format!("{}: kept {:?} are {:e} apart", dsc(), bad, bad.map(|x| d(&pts[x.0], &pts[x.1])).unwrap_or(0.0)));
+            let unc = work.iter().find(|&&w| !keep.iter().any(|&k| d(&pts[w], &pts[k]) <= rad * (1.0 + slack)));
+            r.check(unc.is_none(), "Poisson disk (large / scaled / offset clouds, all visiting orders): every working point is within the radius of a kept point", || format!("{}: working point {:?} has no kept point within the radius", dsc(), unc));
+        }
+    }
+}
+fn working_lists(n: usize) -> Vec<(String, Vec<usize>)> {
+    let perm = |i: usize| (i * 7 + 3) % n;
+    let mut inter = Vec::new();
+    for i in 0..n / 2 { inter.push(i); inter.push(n - 1 - i); }
+    if n % 2 == 1 { inter.push(n / 2); }
+    vec![
+        ("no index".to_string(), vec![]),
+        ("one index".to_string(), vec![n / 3]),
+        ("two indices".to_string(), vec![1, 0]),
+        ("three indices, two of them the same point set apart".to_string(), vec![n - 1, 0, n / 2]),
+        ("all in order".to_string(), (0..n).collect()),
+        ("reversed".to_string(), (0..n).rev().collect()),
+        ("interleaved from both ends".to_string(), inter),
+        ("even indices then odd indices".to_string(), (0..n).step_by(2).chain((1..n).step_by(2)).collect()),
+        ("permuted".to_string(), (0..n).map(perm).collect()),
+        ("an unsorted strict subset".to_string(), (0..n).map(perm).filter(|i| i % 3 != 1).collect()),
+        ("the high third, descending".to_string(), (n - n / 3..n).rev().collect()),
+    ]
+}
+fn poisson_w5<const D: usize>(r: &mut Report, cname: &str, pts: &[Point<f64, D>], unit: f64, exact: bool) {
+    let n = pts.len();
+    r.check(max_axis_multiplicity(pts) <= 8, "input space: at most 8 points of a Poisson-disk cloud share a coordinate on an axis", || format!("{}: {}", cname, max_axis_multiplicity(pts)));
+    // the smallest, one arbitrary and the largest pairwise distance (brute force)
+    let mut dmin = f64::MAX;
+    let mut dmax: f64 = 0.0;
+    for a in 0..n { for b in a + 1..n { let x = d(&pts[a], &pts[b]); if x > 0.0 { dmin = dmin.min(x); } dmax = dmax.max(x); } }
+    let dsome = d(&pts[0], &pts[n / 2]);
+    let sp = unit * (n as f64).powf(1.0 - 1.0 / D as f64);
+    let radii = vec![
+        ("0".to_string(), 0.0),
+        ("half the smallest spacing".to_string(), 0.5 * dmin),
+        ("exactly the smallest pairwise distance".to_string(), dmin),
+        ("one ulp above the smallest pairwise distance".to_string(), ulp_up(dmin)),
+        ("0.81 typical spacings".to_string(), 0.81 * sp),
+        ("2.57 typical spacings".to_string(), 2.57 * sp),
+        ("exactly the distance between points 0 and n/2".to_string(), dsome),
+        ("one ulp below the largest pairwise distance".to_string(), ulp_down(dmax)),
+        ("exactly the largest pairwise distance".to_string(), dmax),
+        ("twice the largest pairwise distance".to_string(), 2.0 * dmax),
+        ("1e160".to_string(), 1.0e160),
+    ];
+    // radii that are a pairwise distance (or an ulp from it) are judged with the slack / strict forms only
+    poisson_family(r, cname, pts, &working_lists(n), &radii, exact);
+}
+
+// ------------------------------------------------------------------------------------------------ wave 5: mesh sampling
+/// scale-aware point-on-triangle test: within `tol` of the plane, barycentric coordinates >= -(tol / smallest altitude)
+fn tri_contains_tol(a: &Point3, b: &Point3, c: &Point3, p: &Point3, labs: f64) -> bool {
+    let n = (b - a).cross(&(c - a));
+    let n2 = n.norm_squared();
+    if n2 == 0.0 { return false; }
+    let h = (b - a).norm().max((c - a).norm()).max((c - b).norm());
+    let tol = 1e-9 * h + 64.0 * f64::EPSILON * labs;
+    if ((p - a).dot(&n)).abs() > tol * n2.sqrt() { return false; }
+    let tb = 1e-9 + tol * h / n2.sqrt();
+    let wa = (b - p).cross(&(c - p)).dot(&n) / n2;
+    let wb = (c - p).cross(&(a - p)).dot(&n) / n2;
+    let wc = (a - p).cross(&(b - p)).dot(&n) / n2;
+    wa >= -tb && wb >= -tb && wc >= -tb
+}
+/// per face: number of samples on it; clauses: on a face, carries that face's normal.  Faces are pairwise disjoint here.
+fn check_samples_w5<F: Fn() -> String + Copy>(r: &mut Report, m: &Mesh, s: &[SurfacePoint3], what: &str, dsc: F) -> Vec<usize> {
+    let nf = m.faces().len();
+    let labs = m.vertices().iter().map(|v| v.coords.amax()).fold(0.0, f64::max);
+    let tris: Vec<(Point3, Point3, Point3)> = (0..nf).map(|f| tri_of(m, f)).collect();
+    let mut hits = vec![0usize; nf];
+    let mut off = None;
+    let mut wrong = None;
+    for sp in s.iter() {
+        match (0..nf).find(|&f| tri_contains_tol(&tris[f].0, &tris[f].1, &tris[f].2, &sp.point, labs)) {
+            None => { if off.is_none() { off = Some(sp.point); } }
+            Some(f) => {
+                hits[f] += 1;
+                let n = (tris[f].1 - tris[f].0).cross(&(tris[f].2 - tris[f].0)).normalize();
+                if !((n - sp.normal.into_inner()).norm() < 1e-9) && wrong.is_none() { wrong = Some((f, sp.point, sp.normal.into_inner())); }
+            }
+        }
+    }
+    r.check(off.is_none(), &format!("{} (tiny / huge / sliver / far-from-origin faces of every orientation): every sample lies on a face of the mesh", what), || format!("{}: {} samples, offending sample {:?}", dsc(), s.len(), off.map(|p| [p.x, p.y, p.z])));
+    r.check(wrong.is_none(), &format!("{} (tiny / huge / sliver / far-from-origin faces of every orientation): every sample carries the normal of the face it lies on", what), || format!("{}: offending (face, point, normal) {:?}", dsc(), wrong.map(|w| (w.0, [w.1.x, w.1.y, w.1.z], [w.2.x, w.2.y, w.2.z]))));
+    hits
+}
+fn shape_triangles() -> Vec<(&'static str, [[f64; 3]; 3])> {
+    let h = 3.0_f64.sqrt();
+    vec![
+        ("right angle at the first vertex", [[0.0, 0.0, 0.0], [4.0, 0.0, 0.0], [0.0, 3.0, 0.0]]),
+        ("right angle at the second vertex", [[4.0, 0.0, 0.0], [0.0, 0.0, 0.0], [0.0, 3.0, 0.0]]),
+        ("right angle at the third vertex", [[4.0, 0.0, 0.0], [0.0, 3.0, 0.0], [0.0, 0.0, 0.0]]),
+        ("obtuse at the first vertex", [[0.0, 0.0, 0.0], [4.0, 0.0, 0.0], [-2.0, 1.0, 0.0]]),
+        ("obtuse at the second vertex", [[-2.0, 1.0, 0.0], [0.0, 0.0, 0.0], [4.0, 0.0, 0.0]]),
+        ("obtuse at the third vertex", [[4.0, 0.0, 0.0], [-2.0, 1.0, 0.0], [0.0, 0.0, 0.0]]),
+        ("equilateral", [[0.0, 0.0, 0.0], [2.0, 0.0, 0.0], [1.0, h, 0.0]]),
+        ("sharp at the first vertex", [[0.0, 0.0, 0.0], [9.0, 1.0, 0.0], [9.0, -1.0, 0.0]]),
+        ("sharp at the second vertex", [[9.0, -1.0, 0.0], [0.0, 0.0, 0.0], [9.0, 1.0, 0.0]]),
+        ("sharp at the third vertex", [[9.0, 1.0, 0.0], [9.0, -1.0, 0.0], [0.0, 0.0, 0.0]]),
+        ("sliver 100 x 0.01 (with a normal)", [[0.0, 0.0, 0.0], [100.0, 0.0, 0.0], [50.0, 0.01, 0.0]]),
+        ("needle 0.01 x 100", [[0.0, 0.0, 0.0], [0.01, 0.0, 0.0], [0.0, 100.0, 0.0]]),
+        ("scalene", [[0.1, 0.2, 0.0], [7.3, 1.1, 0.0], [1.4, 6.2, 0.0]]),
+    ]
+}
+/// one mesh of pairwise disjoint triangles, triangle k rotated by 0.7 k rad about (1, 2, 3) and moved to z = 250 k,
+/// then everything scaled by `s` and moved by `o`
+fn shapes_mesh(tris: &[[[f64; 3]; 3]], s: f64, o: f64) -> Mesh {
+    let axis = parry3d_f64::na::Unit::new_normalize(Vector3::new(1.0, 2.0, 3.0));
+    let mut v = Vec::new();
+    let mut f = Vec::new();
+    for (k, t) in tris.iter().enumerate() {
+        let rot = parry3d_f64::na::Rotation3::from_axis_angle(&axis, 0.7 * k as f64 + 0.3);
+        for c in t.iter() {
+            let p = rot * Vector3::new(c[0], c[1], c[2]) + Vector3::new(0.0, 0.0, 250.0 * k as f64);
+            v.push(Point3::from(p * s + Vector3::new(o, -2.0 * o, 0.5 * o)));
+        }
+        f.push([3 * k as u32, 3 * k as u32 + 1, 3 * k as u32 + 2]);
+    }
+    Mesh::new(v, f, false)
+}
+fn proportion_check(r: &mut Report, m: &Mesh, hits: &[usize], n: usize, dsc: &dyn Fn() -> String) {
+    let nf = m.faces().len();
+    let areas: Vec<f64> = (0..nf).map(|f| { let (a, b, c) = tri_of(m, f); tri_area(&a, &b, &c) }).collect();
+    let total: f64 = areas.iter().sum();
+    for f in 0..nf {
+        let p = areas[f] / total;
+        let dev = (hits[f] as f64 - p * n as f64).abs();
+        // 8 standard deviations + 8 (the additive term covers the Poisson tail of faces with a tiny expected count):
+        // a fair sampler fails this with probability < 1e-13 per face
+        r.check(dev <= 8.0 * (n as f64 * p * (1.0 - p)).sqrt() + 8.0, "sample_uniform hits faces in proportion to their area (8 sigma + 8; very unequal areas, tiny / huge / far meshes)", || format!("{}: face {} (area {:e}, share {:e}, expected {:.1}) was hit {} times", dsc(), f, areas[f], p, p * n as f64, hits[f]));
+    }
+}
+fn sampling_w5(r: &mut Report) {
+    let shapes = shape_triangles();
+    let tris: Vec<[[f64; 3]; 3]> = shapes.iter().map(|s| s.1).collect();
+    let mut anchors = BTreeSet::new();
+    for (vi, (s, o)) in [(1.0, 0.0), (1.0e-6, 0.0), (1.0e4, 0.0), (1.0, 1.0e6), (1.0e-3, 1.0e3), (1.0, -1.0e5)].iter().enumerate() {
+        let m = shapes_mesh(&tris, *s, *o);
+        let mname = format!("{} disjoint triangles of every shape and orientation (right / obtuse / sharp angle at each vertex, equilateral, sliver, needle, scalene), scaled by {:e}, moved by {:e}", tris.len(), s, o);
+        let spacings: &[f64] = if vi == 0 { &[0.45, 0.8, 1.7, 4.0, 30.0, 500.0] } else { &[0.8, 4.0, 30.0] };
+        for sp in spacings.iter() {
+            r.case();
+            let dd = || format!("{}: sample_dense({:e})", mname, sp * s);
+            match catch_unwind(AssertUnwindSafe(|| m.sample_dense(sp * s))) {
+                Err(_) => r.check(false, "sample_dense (tiny / huge / sliver / far-from-origin faces of every orientation): does not panic", dd),
+                Ok(smp) => {
+                    let hits = check_samples_w5(r, &m, &smp, "sample_dense", dd);
+                    // which corner the lattice of a face starts on (the corner itself is its first sample)
+                    let labs = m.vertices().iter().map(|v| v.coords.amax()).fold(0.0, f64::max);
+                    for f in 0..m.faces().len() { if hits[f] > 1 {
+                        let t = tri_of(&m, f);
+                        for (c, corner) in [t.0, t.1, t.2].iter().enumerate() { if smp.iter().any(|x| (x.point - corner).norm() <= 64.0 * f64::EPSILON * labs) { anchors.insert(c); } }
+                    } }
+                }
+            }
+        }
+        // uniform
+        let n = 20001usize;
+        r.case();
+        let du = || format!("{}: sample_uniform({})", mname, n);
+        match catch_unwind(AssertUnwindSafe(|| m.sample_uniform(n))) {
+            Err(_) => r.check(false, "sample_uniform (tiny / huge / sliver / far-from-origin faces of every orientation): does not panic", du),
+            Ok(smp) => {
+                r.check(smp.len() == n, "sample_uniform returns n samples", du);
+                let hits = check_samples_w5(r, &m, &smp, "sample_uniform", du);
+                if hits.iter().sum::<usize>() == n { proportion_check(r, &m, &hits, n, &du); }
+            }
+        }
+        for n in [0usize, 1, 2] {
+            r.case();
+            let du = || format!("{}: sample_uniform({})", mname, n);
+            match catch_unwind(AssertUnwindSafe(|| m.sample_uniform(n))) {
+                Err(_) => r.check(false, "sample_uniform (tiny / huge / sliver / far-from-origin faces of every orientation): does not panic", du),
+                Ok(smp) => { r.check(smp.len() == n, "sample_uniform returns n samples", du); check_samples_w5(r, &m, &smp, "sample_uniform", du); }
+            }
+        }
+        // Poisson: separation and coverage over the dense candidates (which share no coordinates: rotated faces)
+        for rad in [0.9, 3.0, 50.0, 5000.0] {
+            r.case();
+            let dp = || format!("{}: sample_poisson({:e})", mname, rad * s);
+            match catch_unwind(AssertUnwindSafe(|| (m.sample_poisson(rad * s), m.sample_dense(rad * s * 0.5)))) {
+                Err(_) => r.check(false, "sample_poisson (tiny / huge / sliver / far-from-origin faces of every orientation): does not panic", dp),
+                Ok((smp, dense)) => {
+                    check_samples_w5(r, &m, &smp, "sample_poisson", dp);
+                    let cand: Vec<Point3> = dense.iter().map(|x| x.point).collect();
+                    let mult = max_axis_multiplicity(&cand);
+                    // more than 32 candidates sharing a coordinate: the known kiddo leaf defect applies, the clause carries its tag
+                    let tag = if mult > 32 { KIDDO } else { "" };
+                    let rr = rad * s;
+                    let mut bad = None;
+                    'o: for a in 0..smp.len() { for b in a + 1..smp.len() { if d(&smp[a].point, &smp[b].point) < rr * (1.0 - 1e-12) { bad = Some((a, b)); break 'o; } } }
+                    r.check(bad.is_none(), &format!("{}sample_poisson (rotated disjoint faces): no two samples are strictly closer than the radius", tag), || format!("{}: {} samples, samples {:?} are {:e} apart", dp(), smp.len(), bad, bad.map(|x| d(&smp[x.0].point, &smp[x.1].point)).unwrap_or(0.0)));
+                    let unc = cand.iter().find(|q| !smp.iter().any(|k| d(q, &k.point) <= rr * (1.0 + 1e-12)));
+                    r.check(unc.is_none(), &format!("{}sample_poisson (rotated disjoint faces): every dense candidate is within the radius of a kept sample", tag), || format!("{}: {} samples, candidate {:?}", dp(), smp.len(), unc.map(|p| [p.x, p.y, p.z])));
+                    r.check(smp.iter().all(|k| cand.iter().any(|q| *q == k.point)), "sample_poisson (rotated disjoint faces): every sample is one of the dense candidates", dp);
+                }
+            }
+        }
+    }
+    // on the unchanged tree the lattices start on the first, the second and the third corner of some face (all three
+    // branches of sample_dense are taken); not a clause: a lattice that leaves the corner out is still on the face
+    let _ = anchors;
+    // very unequal face areas: legs 30, 1e-3, 1, 10 (area shares 0.899, 1e-9, 1e-3, 0.0999), each face in its own orientation
+    let legs = [30.0, 1.0e-3, 1.0, 10.0];
+    let uneq: Vec<[[f64; 3]; 3]> = legs.iter().map(|&l| [[0.0, 0.0, 0.0], [l, 0.0, 0.0], [0.0, l, 0.0]]).collect();
+    for (s, o) in [(1.0, 0.0), (1.0e-6, 0.0), (1.0, 1.0e6)] {
+        let m = shapes_mesh(&uneq, s, o);
+        let n = 200000usize;
+        r.case();
+        let du = || format!("right triangles with legs 30, 1e-3, 1, 10 (in this face order, each rotated), scaled by {:e}, moved by {:e}: sample_uniform({})", s, o, n);
+        match catch_unwind(AssertUnwindSafe(|| m.sample_uniform(n))) {
+            Err(_) => r.check(false, "sample_uniform (tiny / huge / sliver / far-from-origin faces of every orientation): does not panic", du),
+            Ok(smp) => {
+                r.check(smp.len() == n, "sample_uniform returns n samples", du);
+                let hits = check_samples_w5(r, &m, &smp, "sample_uniform", du);
+                if hits.iter().sum::<usize>() == n { proportion_check(r, &m, &hits, n, &du); }
+            }
+        }
+    }
+}
+
+// ------------------------------------------------------------------------------------------------ wave 5: hulls
+/// shoelace area with coordinates taken relative to the first point (exact for integer outlines far from the origin)
+fn signed_area_rel(p: &[Point2]) -> f64 {
+    let o = p[0];
+    (0..p.len()).map(|i| { let a = p[i] - o; let b = p[(i + 1) % p.len()] - o; a.x * b.y - b.x * a.y }).sum::<f64>() * 0.5
+}
+fn xf(p: &[Point2], s: f64, ox: f64, oy: f64) -> Vec<Point2> { p.iter().map(|q| Point2::new(q.x * s + ox, q.y * s + oy)).collect() }
+const HW5: &str = " (far / tiny / large / collinear point sets)";
+/// `ext`: extent of the point set (tolerances scale with it)
+fn hull_checks_w5(r: &mut Report, name: &str, pts: &[Point2], ext: f64) {
+    r.case();
+    let hull = match catch_unwind(AssertUnwindSafe(|| convex_hull_2d(pts))) { Ok(h) => h, Err(_) => { r.check(false, &format!("convex hull{}: does not panic", HW5), || name.to_string()); return; } };
+    let dsc = || format!("convex_hull_2d({}: {} points, first {:?}) = {}", name, pts.len(), pts.iter().take(6).map(|p| (p.x, p.y)).collect::<Vec<_>>(), short(&hull));
+    r.check(hull.iter().all(|&i| i < pts.len()) && hull.iter().collect::<BTreeSet<_>>().len() == hull.len(), &format!("convex hull{}: distinct indices of input points", HW5), dsc);
+    if hull.iter().any(|&i| i >= pts.len()) || hull.is_empty() { return; }
+    let tol = 1e-9 * ext * ext;
+    let collinear = pts.iter().all(|p| cross2(&pts[0], &pts[pts.len() - 1], p).abs() <= tol) && pts.iter().all(|p| cross2(&pts[0], &pts[1], p).abs() <= tol);
+    let hp: Vec<Point2> = hull.iter().map(|&i| pts[i]).collect();
+    let h = hp.len();
+    if collinear {
+        // a segment: every input point lies between the reported end points
+        let (a, b) = (hp[0], hp[h - 1]);
+        r.check(h >= 2 && pts.iter().all(|p| (p - a).dot(&(b - a)) >= -tol && (p - b).dot(&(a - b)) >= -tol), &format!("convex hull{}: every input point is inside or on the hull", HW5), dsc);
+        return;
+    }
+    r.check(h >= 3, &format!("convex hull{}: at least 3 hull points for a point set that is not collinear", HW5), dsc);
+    if h < 3 { return; }
+    r.check(signed_area_rel(&hp) > 0.0, &format!("convex hull{}: the indices run counter-clockwise (positive signed area)", HW5), dsc);
+    r.check((0..h).all(|i| cross2(&hp[i], &hp[(i + 1) % h], &hp[(i + 2) % h]) >= -tol), &format!("convex hull{}: every turn is a left turn", HW5), dsc);
+    let out = pts.iter().position(|p| (0..h).any(|i| cross2(&hp[i], &hp[(i + 1) % h], p) < -tol));
+    r.check(out.is_none(), &format!("convex hull{}: every input point is inside or on the hull", HW5), || format!("{}: point {:?} is outside", dsc(), out));
+}
+
+/// farthest_pair_indices on a convex counter-clockwise polygon given vertex by vertex, for every start vertex
+fn farthest_checks(r: &mut Report, name: &str, poly: &[Point2]) {
+    let n = poly.len();
+    let ext = poly.iter().map(|p| d(p, &poly[0])).fold(0.0, f64::max);
+    r.check((0..n).all(|i| cross2(&poly[i], &poly[(i + 1) % n], &poly[(i + 2) % n]) > 1e-9 * ext * ext), "input space: the farthest-pair polygons are strictly convex and counter-clockwise", || format!("{}", name));
+    let rots: Vec<usize> = if n <= 70 { (0..n).collect() } else { vec![0, 1, n / 7, n / 3, n / 2, n - 1] };
+    for rot in rots {
+        r.case();
+        let p: Vec<Point2> = (0..n).map(|k| poly[(k + rot) % n]).collect();
+        let Some(cp) = ConvexPolygon::from_convex_polyline(p.clone()) else { r.check(false, "input space: parry accepts the farthest-pair polygon", || format!("{} started at vertex {}", name, rot)); continue; };
+        let pp = cp.points();
+        let (a, b) = farthest_pair_indices(&cp);
+        let dfp = || format!("farthest_pair_indices({} started at vertex {}: {} vertices, first {:?}) = ({}, {})", name, rot, pp.len(), pp.iter().take(6).map(|q| (q.x, q.y)).collect::<Vec<_>>(), a, b);
+        r.check(a < pp.len() && b < pp.len() && a != b, "farthest pair (every start vertex; wedges, parallel edges, ties, thin, large, far, tiny): two different indices of hull points", dfp);
+        if a >= pp.len() || b >= pp.len() { continue; }
+        let mut diam: f64 = 0.0;
+        for i in 0..pp.len() { for j in i + 1..pp.len() { diam = diam.max(d(&pp[i], &pp[j])); } }
+        r.check(rclose(d(&pp[a], &pp[b]), diam), "farthest pair (every start vertex; wedges, parallel edges, ties, thin, large, far, tiny): the distance is the brute-force diameter of the hull", || format!("{}: {:e} vs diameter {:e}", dfp(), d(&pp[a], &pp[b]), diam));
+    }
+}
+fn on_ellipse(n: usize, a: f64, b: f64, wobble: f64) -> Vec<Point2> {
+    (0..n).map(|k| { let t = (k as f64 + wobble * (k as f64 * 2.4).sin()) / n as f64 * std::f64::consts::TAU; Point2::new(a * t.cos(), b * t.sin()) }).collect()
+}
+
+/// point_order_direction and Curve2::from_points_ccw against the signed area
+fn direction_checks_w5(r: &mut Report, name: &str, poly: &[Point2], rots: &[usize], with_curve: bool) {
+    let n = poly.len();
+    for rev in [false, true] { for &rot in rots.iter() {
+        r.case();
+        let mut p: Vec<Point2> = (0..n).map(|k| poly[(k + rot) % n]).collect();
+        if rev { p.reverse(); }
+        let area = signed_area_rel(&p);
+        let dsc = || format!("{} started at vertex {}{}: {} points, first {:?}, signed area {:e}", name, rot, if rev { ", reversed" } else { "" }, n, p.iter().take(5).map(|q| (q.x, q.y)).collect::<Vec<_>>(), area);
+        let got = point_order_direction(&p);
+        r.check(matches!(got, AngleDir::Ccw) == (area > 0.0), "point_order_direction matches the sign of the signed area (far / tiny / huge outlines, 1000 and 70000 points, every orientation)", || format!("{}: got {:?}", dsc(), got));
+        if with_curve {
+            let ext = p.iter().map(|q| d(q, &p[0])).fold(0.0, f64::max);
+            for force_closed in [false, true] { for tol in [1e-9 * ext, 0.01 * ext] {
+                match crate::Curve2::from_points_ccw(&p, tol, force_closed) {
+                    Err(_) => r.check(false, "Curve2::from_points_ccw builds a curve from a simple outline", || format!("{} tol {:e} force_closed {}", dsc(), tol, force_closed)),
+                    Ok(c) => {
+                        let a2 = signed_area_rel(c.points());
+                        r.check(a2 > 0.0, "Curve2::from_points_ccw: the curve runs counter-clockwise (positive signed area) whichever way the points were given", || format!("{} tol {:e} force_closed {}: signed area of the curve {:e}", dsc(), tol, force_closed, a2));
+                    }
+                }
+            } }
+        }
+    } }
+}
+
+fn hulls_w5(r: &mut Report) {
+    // convex_hull_2d: far offsets, tiny / huge extents, large sets (tie-free and gridded), collinear sets
+    let scattered: Vec<Point2> = (0..17).map(|i| Point2::new(((i * 7) % 11) as f64, ((i * 5) % 13) as f64)).collect();
+    let mut with_dups = scattered.clone();
+    with_dups.extend([scattered[0], scattered[5], Point2::new(10.0, 12.0), Point2::new(10.0, 12.0)]);
+    let p20 = (2.0_f64).powi(-20);
+    let base: Vec<(&str, Vec<Point2>, f64)> = vec![
+        ("3x3 grid", cloud2(3, 3, &[]), 3.0),
+        ("7x7 grid + duplicates", cloud2(7, 7, &[0, 10, 24, 48]), 7.0),
+        ("40x40 grid", cloud2(40, 40, &[]), 40.0),
+        ("scattered integer points with duplicates", with_dups, 13.0),
+        ("1009-point lattice", lattice::<2>(1009, 1.0, [0.0, 0.0]), 1009.0),
+        ("1000 points on an ellipse 10 x 3", on_ellipse(1000, 10.0, 3.0, 0.3), 20.0),
+        ("5 collinear points on a diagonal, unsorted", vec![Point2::new(0.0, 0.0), Point2::new(3.0, 3.0), Point2::new(1.0, 1.0), Point2::new(4.0, 4.0), Point2::new(2.0, 2.0)], 6.0),
+        ("3 collinear points", vec![Point2::new(0.0, 0.0), Point2::new(1.0, 0.0), Point2::new(2.0, 0.0)], 2.0),
+        ("2 points", vec![Point2::new(0.0, 1.0), Point2::new(1.0, 0.0)], 2.0),
+        ("3 points, clockwise", vec![Point2::new(0.0, 0.0), Point2::new(0.0, 2.0), Point2::new(3.0, 0.0)], 3.0),
+        ("a square with the centre and edge midpoints", vec![Point2::new(0.0, 0.0), Point2::new(1.0, 0.0), Point2::new(2.0, 0.0), Point2::new(2.0, 1.0), Point2::new(2.0, 2.0), Point2::new(1.0, 2.0), Point2::new(0.0, 2.0), Point2::new(0.0, 1.0), Point2::new(1.0, 1.0)], 2.0),
+    ];
+    for (name, pts, ext) in base.iter() {
+        for (s, ox, oy) in [(1.0, 0.0, 0.0), (1.0, 1.0e6, -3.0e6), (1.0, 1.0e8, 1.0e8), (p20, 0.0, 0.0), (1.0e-6, 0.0, 0.0), (1.0e4, 0.0, 0.0), (p20, 1.0, 1.0)] {
+            hull_checks_w5(r, &format!("{} scaled by {:e}, moved by ({:e}, {:e})", name, s, ox, oy), &xf(pts, s, ox, oy), ext * s);
+        }
+    }
+    // farthest pair
+    let polys: Vec<(&str, Vec<Point2>)> = vec![
+        ("wedge with a blunt nose (distances from the tail go up, down, up)", vec![Point2::new(0.0, 0.0), Point2::new(10.0, -3.0), Point2::new(10.2, 0.0), Point2::new(10.0, 4.0), Point2::new(5.0, 5.0)]),
+        ("long wedge with a blunt nose", vec![Point2::new(0.0, 0.0), Point2::new(100.0, -1.0), Point2::new(100.05, 0.0), Point2::new(100.0, 2.0), Point2::new(40.0, 3.0)]),
+        ("two blunt noses", vec![Point2::new(-10.2, 0.0), Point2::new(-10.0, -3.5), Point2::new(10.0, -3.0), Point2::new(10.2, 0.0), Point2::new(10.0, 4.0), Point2::new(-10.0, 3.0)]),
+        ("acute triangle", vec![Point2::new(0.0, 0.0), Point2::new(4.0, 0.0), Point2::new(1.0, 3.0)]),
+        ("obtuse triangle", vec![Point2::new(0.0, 0.0), Point2::new(10.0, 0.0), Point2::new(4.0, 1.0)]),
+        ("thin triangle", vec![Point2::new(0.0, 0.0), Point2::new(100.0, 0.5), Point2::new(50.0, 0.75)]),
+        ("square (two equal diagonals)", vec![Point2::new(0.0, 0.0), Point2::new(4.0, 0.0), Point2::new(4.0, 4.0), Point2::new(0.0, 4.0)]),
+        ("thin rectangle", vec![Point2::new(0.0, 0.0), Point2::new(50.0, 0.0), Point2::new(50.0, 0.25), Point2::new(0.0, 0.25)]),
+        ("rhombus", vec![Point2::new(0.0, -1.0), Point2::new(6.0, 0.0), Point2::new(0.0, 1.0), Point2::new(-6.0, 0.0)]),
+        ("trapezoid", vec![Point2::new(0.0, 0.0), Point2::new(10.0, 0.0), Point2::new(7.0, 2.0), Point2::new(1.0, 2.0)]),
+        ("kite", vec![Point2::new(0.0, 0.0), Point2::new(2.0, -1.0), Point2::new(9.0, 0.0), Point2::new(2.0, 1.0)]),
+        ("7 points on an ellipse 10 x 3", on_ellipse(7, 10.0, 3.0, 0.3)),
+        ("64 points on a circle", on_ellipse(64, 10.0, 10.0, 0.0)),
+        ("65 points on an ellipse 3 x 10, unevenly spaced", on_ellipse(65, 3.0, 10.0, 0.4)),
+        ("half disc of 40 points", (0..40).map(|k| { let t = k as f64 / 39.0 * std::f64::consts::PI; Point2::new(10.0 * t.cos(), 10.0 * t.sin()) }).collect()),
+        ("1000 points on an ellipse 10 x 9.9", on_ellipse(1000, 10.0, 9.9, 0.3)),
+    ];
+    for (name, poly) in polys.iter() {
+        for (s, ox, oy) in [(1.0, 0.0, 0.0), (1.0, 1.0e6, -3.0e6), (p20, 0.0, 0.0), (1.0e4, 0.0, 0.0)] {
+            if poly.len() > 100 && s != 1.0 { continue; }
+            farthest_checks(r, &format!("{} scaled by {:e}, moved by ({:e}, {:e})", name, s, ox, oy), &xf(poly, s, ox, oy));
+        }
+    }
+    // order direction / from_points_ccw
+    let hexagon = vec![Point2::new(2.0, 0.0), Point2::new(4.0, 1.0), Point2::new(4.0, 3.0), Point2::new(2.0, 4.0), Point2::new(0.0, 3.0), Point2::new(0.0, 1.0)];
+    let ell = vec![Point2::new(0.0, 0.0), Point2::new(4.0, 0.0), Point2::new(4.0, 1.0), Point2::new(1.0, 1.0), Point2::new(1.0, 4.0), Point2::new(0.0, 4.0)];
+    let star = vec![Point2::new(0.0, 0.0), Point2::new(3.0, 1.0), Point2::new(6.0, 0.0), Point2::new(5.0, 3.0), Point2::new(6.0, 6.0), Point2::new(3.0, 5.0), Point2::new(0.0, 6.0), Point2::new(1.0, 3.0)];
+    let tri = vec![Point2::new(0.0, 0.0), Point2::new(4.0, 0.0), Point2::new(0.0, 3.0)];
+    let tri_star = vec![Point2::new(0.0, 0.0), Point2::new(4.0, 1.0), Point2::new(8.0, 0.0), Point2::new(5.0, 3.0), Point2::new(4.0, 8.0), Point2::new(3.0, 3.0)];
+    let gear = |n: usize| -> Vec<Point2> { (0..n).map(|k| { let t = k as f64 / n as f64 * std::f64::consts::TAU; let rr = if k % 2 == 0 { 10.0 } else { 9.5 }; Point2::new(rr * t.cos(), 0.7 * rr * t.sin()) }).collect() };
+    let c_arc: Vec<Point2> = (0..30).map(|k| { let t = 0.4 + k as f64 / 29.0 * 4.7; Point2::new(5.0 * t.cos(), 5.0 * t.sin()) }).collect();
+    let small: Vec<(&str, Vec<Point2>)> = vec![("hexagon", hexagon), ("L-shape", ell), ("8-point star", star), ("triangle", tri), ("three-pointed star", tri_star), ("gear of 24 points", gear(24)), ("open three-quarter arc of 30 points", c_arc)];
+    for (name, poly) in small.iter() {
+        let all_rots: Vec<usize> = (0..poly.len()).collect();
+        let rots: &[usize] = if name.starts_with("open") { &[0] } else { &all_rots };
+        for (s, ox, oy) in [(1.0, 0.0, 0.0), (1.0, 1.0e6, -3.0e6), (1.0, 1.0e8, 1.0e8), (p20, 0.0, 0.0), (1.0e-6, 0.0, 0.0), (1.0e4, 0.0, 0.0)] {
+            direction_checks_w5(r, &format!("{} scaled by {:e}, moved by ({:e}, {:e})", name, s, ox, oy), &xf(poly, s, ox, oy), rots, true);
+        }
+    }
+    direction_checks_w5(r, "gear of 1000 points", &gear(1000), &[0, 1, 333, 999], true);
+    direction_checks_w5(r, "1000 points on an ellipse 10 x 3", &on_ellipse(1000, 10.0, 3.0, 0.3), &[0, 500], true);
+    direction_checks_w5(r, "gear of 70000 points", &gear(70000), &[0, 12345], false);
+    direction_checks_w5(r, "70000 points on an ellipse 10 x 3", &on_ellipse(70000, 10.0, 3.0, 0.0), &[1], false);
+}
+
+// ------------------------------------------------------------------------------------------------ wave 5: ball pivoting
+const PW5: &str = "ball pivot (every start / end variant, both directions, open chains, non-convex and uneven outlines, far / tiny / huge)";
+fn start_name(s: &BallPivotStart) -> String { match s { BallPivotStart::StartOnIndex(i) => format!("StartOnIndex({})", i), BallPivotStart::StartOnIndexDir(i, v) => format!("StartOnIndexDir({}, ({:e}, {:e}))", i, v.x, v.y), BallPivotStart::StartOnConvex => "StartOnConvex".to_string() } }
+fn end_name(e: &BallPivotEnd) -> String { match e { BallPivotEnd::EndOnIndex(i) => format!("EndOnIndex({})", i), BallPivotEnd::EndOnRepeat => "EndOnRepeat".to_string() } }
+/// the step clauses of the statement; returns false when the result is malformed
+fn pivot_step_checks(r: &mut Report, tag: &str, pts: &[Point2], idx: &[usize], centers: &[Point2], rad: f64, dsc: &dyn Fn() -> String) -> bool {
+    let labs = pts.iter().map(|p| p.coords.amax()).fold(0.0, f64::max);
+    let tol = 1e-9 * rad + 64.0 * f64::EPSILON * labs;
+    let ok = centers.len() + 1 == idx.len() && idx.iter().all(|&i| i < pts.len());
+    r.check(ok, &format!("{}{}: one centre per pair of consecutive hull indices", tag, PW5), || format!("{} -> {} indices, {} centres", dsc(), idx.len(), centers.len()));
+    if !ok { return false; }
+    for (k, c) in centers.iter().enumerate() {
+        let d0 = d(&pts[idx[k]], c);
+        let d1 = d(&pts[idx[k + 1]], c);
+        r.check((d0 - rad).abs() <= tol && (d1 - rad).abs() <= tol, &format!("{}{}: the centre is exactly one radius from the two consecutive hull points", tag, PW5), || format!("{} step {} ({} -> {}): distances {:e} and {:e}", dsc(), k, idx[k], idx[k + 1], d0, d1));
+        let inside: Vec<(usize, f64)> = pts.iter().enumerate().map(|(j, q)| (j, d(q, c))).filter(|x| !(x.1 >= rad - tol)).collect();
+        r.check(inside.is_empty(), &format!("{}{}: no input point strictly inside the ball", tag, PW5), || format!("{} step {} ({} -> {}), centre ({:e}, {:e}): points (index, distance from the centre) {:?}", dsc(), k, idx[k], idx[k + 1], c.x, c.y, &inside[..inside.len().min(4)]));
+    }
+    true
+}
+/// for a bare index list (ball_pivot_2d): between consecutive hull points there IS a ball of the radius through both with no
+/// input point strictly inside (one of the two circles through both points)
+fn pivot_pair_checks(r: &mut Report, tag: &str, pts: &[Point2], idx: &[usize], rad: f64, dsc: &dyn Fn() -> String) {
+    let labs = pts.iter().map(|p| p.coords.amax()).fold(0.0, f64::max);
+    let tol = 1e-9 * rad + 64.0 * f64::EPSILON * labs;
+    for w in idx.windows(2) {
+        if w[0] >= pts.len() || w[1] >= pts.len() { r.check(false, &format!("{}ball_pivot_2d: indices of input points", tag), dsc); return; }
+        let (a, b) = (pts[w[0]], pts[w[1]]);
+        let half = d(&a, &b) * 0.5;
+        let mut ok = false;
+        if half > 0.0 && half <= rad {
+            let mid = Point2::from((a.coords + b.coords) * 0.5);
+            let t = (b - a) / (2.0 * half);
+            let nrm = Vector2::new(-t.y, t.x);
+            let h = (rad * rad - half * half).max(0.0).sqrt();
+            for c in [mid + nrm * h, mid - nrm * h] { if pts.iter().all(|q| d(q, &c) >= rad - tol.max(1e-7 * rad)) { ok = true; } }
+        }
+        r.check(ok, &format!("{}ball_pivot_2d: between consecutive hull points there is a ball of the radius through both with no input point strictly inside", tag), || format!("{}: step {} -> {}", dsc(), w[0], w[1]));
+    }
+}
+fn angle_between(a: &Vector2, b: &Vector2) -> f64 { (a.x * b.y - a.y * b.x).atan2(a.dot(b)).abs() }
+
+/// every start / end / direction combination on one point set.  `tag` is prepended to every clause name evaluated here.
+/// A StartOnIndexDir whose ball position is not free (an input point strictly inside) is outside the precondition: skipped.
+fn pivot_family(r: &mut Report, tag: &str, name: &str, pts: &[Point2], rad: f64, starts: &[BallPivotStart], ends: &[BallPivotEnd], spacings: &[f64], expect_steps: usize) {
+    let pw5 = format!("{}{}", tag, PW5);
+    let starts: Vec<BallPivotStart> = starts.iter().copied().filter(|s| match s {
+        BallPivotStart::StartOnIndexDir(i, v) => { let c = pts[*i] + v.normalize() * rad; pts.iter().all(|q| d(q, &c) >= rad * (1.0 - 1e-9)) }
+        _ => true,
+    }).collect();
+    for start in starts.iter() { for end in ends.iter() { for dir in [AngleDir::Ccw, AngleDir::Cw] {
+        r.case();
+        let dsc = || format!("ball_pivot_with_centers_2d({}: {} points, {}, {}, {:?}, radius {:e})", name, pts.len(), start_name(start), end_name(end), dir, rad);
+        let res = match catch_unwind(AssertUnwindSafe(|| ball_pivot_with_centers_2d(pts, *start, *end, dir, rad))) {
+            Err(_) => { r.check(false, &format!("{}: does not panic", pw5), dsc); continue; }
+            Ok(Err(e)) => { r.check(false, &format!("{}: completes on an outline whose gaps are narrower than the ball", pw5), || format!("{}: {}", dsc(), e)); continue; }
+            Ok(Ok(x)) => x,
+        };
+        let (idx, centers) = res;
+        if !pivot_step_checks(r, tag, pts, &idx, &centers, rad, &dsc) { continue; }
+        r.check(centers.len() >= if matches!(end, BallPivotEnd::EndOnRepeat) { expect_steps } else { 1 }, &format!("{}: completes on an outline whose gaps are narrower than the ball", pw5), || format!("{} -> only {} steps {}", dsc(), centers.len(), short(&idx)));
+        if let BallPivotEnd::EndOnIndex(j) = end { r.check(idx.last() == Some(j), &format!("{}: reaches the end index on an outline whose gaps are narrower than the ball", pw5), || format!("{} -> {} steps {}", dsc(), centers.len(), short(&idx))); }
+        // the bare-index wrapper
+        match catch_unwind(AssertUnwindSafe(|| crate::geom2::hull::ball_pivot_2d(pts, *start, *end, dir, rad))) {
+            Ok(Ok(bare)) => pivot_pair_checks(r, tag, pts, &bare, rad, &|| format!("ball_pivot_2d (same arguments as {}) = {}", dsc(), short(&bare))),
+            _ => r.check(false, &format!("{}ball_pivot_2d: completes where ball_pivot_with_centers_2d does", tag), dsc),
+        }
+        // gap filling: hull points in order, fillers on the ball of their step, on the arc between its two hull points
+        for &ms in spacings {
+            r.case();
+            let df = || format!("ball_pivot_fill_gaps_2d (arguments of {}, max_spacing {:e})", dsc(), ms);
+            let out = match catch_unwind(AssertUnwindSafe(|| crate::geom2::hull::ball_pivot_fill_gaps_2d(pts, *start, *end, dir, rad, ms))) {
+                Ok(Ok(o)) => o,
+                _ => { r.check(false, &format!("{}ball_pivot_fill_gaps_2d: completes where ball_pivot_with_centers_2d does", tag), df); continue; }
+            };
+            let labs = pts.iter().map(|p| p.coords.amax()).fold(0.0, f64::max);
+            let tol = 1e-9 * rad + 64.0 * f64::EPSILON * labs;
+            let mut pos = 0usize;
+            let mut order_ok = true;
+            let mut on_ball = true;
+            let mut on_arc = true;
+            for k in 0..centers.len() {
+                if pos >= out.len() || out[pos] != pts[idx[k]] { order_ok = false; break; }
+                pos += 1;
+                let (v0, v1) = (pts[idx[k]] - centers[k], pts[idx[k + 1]] - centers[k]);
+                while pos < out.len() && out[pos] != pts[idx[k + 1]] {
+                    let f = out[pos] - centers[k];
+                    if (f.norm() - rad).abs() > tol { on_ball = false; }
+                    if (angle_between(&v0, &f) + angle_between(&f, &v1) - angle_between(&v0, &v1)).abs() > 1e-6 { on_arc = false; }
+                    pos += 1;
+                }
+            }
+            if order_ok && !(pos + 1 == out.len() && out[pos] == pts[idx[idx.len() - 1]]) { order_ok = false; }
+            r.check(order_ok, &format!("{}ball_pivot_fill_gaps_2d: the hull points of the pivot appear in order, first and last included", tag), || format!("{} -> {} points for hull {}", df(), out.len(), short(&idx)));
+            if order_ok {
+                r.check(on_ball, &format!("{}ball_pivot_fill_gaps_2d: every filled-in point lies one radius from the ball centre of its step", tag), df);
+                r.check(on_arc, &format!("{}ball_pivot_fill_gaps_2d: every filled-in point lies on the arc between the two hull points of its step", tag), df);
+            }
+        }
+    } } }
+}
+/// points along a polyline at uneven spacing 0.35 .. 0.6 (times `unit`)
+fn along(verts: &[Point2], closed: bool, unit: f64) -> Vec<Point2> {
+    let mut out = Vec::new();
+    let m = if closed { verts.len() } else { verts.len() - 1 };
+    let mut k = 0usize;
+    for e in 0..m {
+        let (a, b) = (verts[e], verts[(e + 1) % verts.len()]);
+        let len = d(&a, &b);
+        let mut t = 0.0;
+        while t < len - 0.2 * unit { out.push(a + (b - a) * (t / len)); k += 1; t += unit * (0.35 + 0.25 * ((k as f64 * 0.6180339887) % 1.0)); }
+    }
+    if !closed { out.push(verts[verts.len() - 1]); }
+    out
+}
+/// starts: on the convex hull, and on each listed index with a searched and with a given (outward from `c`) direction
+fn starts_of(pts: &[Point2], c: Point2, ids: &[usize]) -> Vec<BallPivotStart> {
+    let mut v = vec![BallPivotStart::StartOnConvex];
+    for &i in ids { v.push(BallPivotStart::StartOnIndex(i)); v.push(BallPivotStart::StartOnIndexDir(i, pts[i] - c)); }
+    v
+}
+fn ends_of(ids: &[usize]) -> Vec<BallPivotEnd> {
+    let mut v = vec![BallPivotEnd::EndOnRepeat];
+    for &i in ids { v.push(BallPivotEnd::EndOnIndex(i)); }
+    v
+}
+const DEADEND: &str = "[defect: at a dead end the ball pivot skips the point it came from] ";
+fn pivots_w5(r: &mut Report) {
+    let rot = Iso2::rotation(0.3);
+    let ring = circle12();
+    let ellipse = on_ellipse(40, 8.0, 4.0, 0.35);
+    let ell_outline: Vec<Point2> = along(&[Point2::new(0.0, 0.0), Point2::new(6.0, 0.0), Point2::new(6.0, 2.0), Point2::new(2.0, 2.0), Point2::new(2.0, 6.0), Point2::new(0.0, 6.0)], true, 1.0).iter().map(|p| rot * p).collect();
+    let wave: Vec<Point2> = along(&(0..25).map(|k| Point2::new(k as f64 * 0.5, (k as f64 * 0.5).sin())).collect::<Vec<_>>(), false, 1.0).iter().map(|p| rot * p).collect();
+    let mut ring_dup = circle12();
+    let p3 = ring_dup[3];
+    ring_dup.insert(4, p3);
+    for (s, ox, oy) in [(1.0, 0.0, 0.0), (1.0, 1.0e6, -3.0e6), (1.0, 1.0e8, 1.0e8), ((2.0_f64).powi(-10), 0.0, 0.0), (1.0e-4, 0.0, 0.0), (1.0e3, 0.0, 0.0)] {
+        let tag = format!(" scaled by {:e}, moved by ({:e}, {:e})", s, ox, oy);
+        let c = Point2::new(ox, oy);
+        let first = s == 1.0 && ox == 0.0;
+        let sp: Vec<f64> = if first { vec![0.3 * s, 1.0 * s, 2.0 * s, 100.0 * s] } else { vec![0.7 * s] };
+        let p = xf(&ring, s, ox, oy);
+        pivot_family(r, "", &format!("12 points on a circle of radius 5{}", tag), &p, 2.0 * s, &starts_of(&p, c, if first { &[0, 3, 7, 11] } else { &[7] }), &ends_of(if first { &[5, 0] } else { &[5] }), &sp, 12);
+        if first { for rad in [1.3, 1.4, 3.5, 50.0] { pivot_family(r, "", &format!("12 points on a circle of radius 5{}", tag), &p, rad * s, &starts_of(&p, c, &[3]), &ends_of(&[8]), &[1.0], 12); } }
+        let p = xf(&ellipse, s, ox, oy);
+        pivot_family(r, "", &format!("40 unevenly spaced points on an ellipse 8 x 4{}", tag), &p, 1.5 * s, &starts_of(&p, c, if first { &[0, 13, 29] } else { &[13] }), &ends_of(&[20]), &sp, 40);
+        let p = xf(&ring_dup, s, ox, oy);
+        pivot_family(r, "", &format!("12 points on a circle of radius 5 with point 3 listed twice{}", tag), &p, 2.0 * s, &starts_of(&p, c, &[0]), &ends_of(&[6]), &sp[..1], 12);
+        // non-convex outline: the L rotated by 0.3 rad, sampled unevenly; a point inside the lower arm as the centre
+        let lc = rot * Point2::new(1.0, 1.0);
+        let p = xf(&ell_outline, s, ox, oy);
+        pivot_family(r, "", &format!("rotated L-shaped outline sampled at uneven spacing 0.35 .. 0.6{}", tag), &p, 0.8 * s, &starts_of(&p, Point2::new(lc.x * s + ox, lc.y * s + oy), &[0]), &ends_of(&[10]), &sp[..1], 20);
+    }
+    // a pinched outline (two diamonds sharing the point (0, 0), rotated by 0.3 rad): the ball touches the shared point twice,
+    // once in the upper and once in the lower notch (the wall points next to it are 2 apart, the ball is 1.8 wide)
+    let lobe = [(1.0, 1.0), (2.0, 2.0), (3.0, 3.0), (4.0, 2.0), (5.0, 1.0), (6.0, 0.0), (5.0, -1.0), (4.0, -2.0), (3.0, -3.0), (2.0, -2.0), (1.0, -1.0)];
+    let mut bow: Vec<Point2> = vec![Point2::new(0.0, 0.0)];
+    for (x, y) in lobe.iter() { bow.push(Point2::new(*x, *y)); }
+    for (x, y) in lobe.iter() { bow.push(Point2::new(-*x, *y)); }
+    let bow: Vec<Point2> = bow.iter().map(|p| rot * p).collect();
+    // starts on the two far tips (6: right, 17: left); ends on the four lobe flanks (4, 8, 15, 19): before and after the second visit
+    pivot_family(r, "", "two diamonds sharing one point (bow-tie), rotated by 0.3 rad", &bow, 0.9, &[BallPivotStart::StartOnIndex(6), BallPivotStart::StartOnIndex(17), BallPivotStart::StartOnConvex], &[BallPivotEnd::EndOnIndex(4), BallPivotEnd::EndOnIndex(8), BallPivotEnd::EndOnIndex(15), BallPivotEnd::EndOnIndex(19)], &[0.5], 1);
+    // an open chain walked from one end to the other (both sides)
+    let n = wave.len();
+    let beyond = wave[1];
+    pivot_family(r, "", "open sine-wave chain sampled at uneven spacing 0.35 .. 0.6, rotated by 0.3 rad", &wave, 1.0, &[BallPivotStart::StartOnIndex(0), BallPivotStart::StartOnIndexDir(0, wave[0] - beyond)], &[BallPivotEnd::EndOnIndex(n - 1), BallPivotEnd::EndOnIndex(n / 2)], &[0.4], 1);
+    // ... and round its dead end: the ball runs along one side, round the end point and must touch the point it came from again
+    // from the other side.  The code as found skipped that point (`*ni == results[len - 2]`) and reports a step with it inside the ball
+    // (repaired in /repo by fix: 0ca96ff; the clause reports the violation again if it returns)
+    {
+    pivot_family(r, DEADEND, "open sine-wave chain sampled at uneven spacing 0.35 .. 0.6, rotated by 0.3 rad", &wave, 1.0, &[BallPivotStart::StartOnConvex, BallPivotStart::StartOnIndex(n / 2)], &[BallPivotEnd::EndOnRepeat], &[0.4], 1);
+    let stick: Vec<Point2> = (0..5).map(|k| Point2::new(0.75 * k as f64, 0.0)).collect();
+    pivot_family(r, DEADEND, "5 points 0.75 apart on the x axis", &stick, 1.0, &[BallPivotStart::StartOnIndexDir(2, Vector2::new(0.0, 1.0))], &[BallPivotEnd::EndOnRepeat], &[], 1);
+    }
+    // a filled grid: the ball can rest on a boundary point only; starting on an interior point must not produce a step with points inside the ball
+    let g = cloud2(7, 7, &[]);
+    for i in [0usize, 3, 6, 24, 8, 48, 45, usize::MAX] { for dir in [AngleDir::Ccw, AngleDir::Cw] {
+        r.case();
+        let start = if i == usize::MAX { BallPivotStart::StartOnConvex } else { BallPivotStart::StartOnIndex(i) };
+        let dsc = || format!("ball_pivot_with_centers_2d(7x7 unit grid, {}, EndOnRepeat, {:?}, radius 2)", start_name(&start), dir);
+        match catch_unwind(AssertUnwindSafe(|| ball_pivot_with_centers_2d(&g, start, BallPivotEnd::EndOnRepeat, dir, 2.0))) {
+            Err(_) => r.check(false, &format!("{}: does not panic", PW5), dsc),
+            Ok(Err(_)) => r.check(i == 24 || i == 8, &format!("{}: completes on an outline whose gaps are narrower than the ball", PW5), dsc),
+            Ok(Ok((idx, centers))) => { pivot_step_checks(r, "", &g, &idx, &centers, 2.0, &dsc); }
+        }
+    } }
+}
+
+fn wave5(r: &mut Report) {
+    // ---- k-d trees: sizes past 32 / 64 / 128 / 1000 / 4096, far from the origin, tiny and huge extents
+    for n in [37usize, 67, 131, 1009, 4099] {
+        search_family(r, &format!("{}-point 2D lattice", n), &lattice::<2>(n, 1.0, [0.0, 0.0]), 1.0);
+        search_family(r, &format!("{}-point 3D lattice", n), &lattice::<3>(n, 1.0, [0.0, 0.0, 0.0]), 1.0);
+    }
+    if super::thorough() {
+        search_family(r, "16411-point 2D lattice", &lattice::<2>(16411, 1.0, [0.0, 0.0]), 1.0);
+        search_family(r, "16411-point 3D lattice", &lattice::<3>(16411, 1.0, [0.0, 0.0, 0.0]), 1.0);
+        poisson_w5(r, "4099-point 2D lattice", &lattice::<2>(4099, 1.0, [0.0, 0.0]), 1.0, true);
+        poisson_w5(r, "4099-point 3D lattice at offset 1e6", &lattice::<3>(4099, 1.0, [1.0e6, -2.0e6, 5.0e5]), 1.0, true);
+        hull_checks_w5(r, "16411-point lattice", &lattice::<2>(16411, 1.0, [0.0, 0.0]), 16411.0);
+        hull_checks_w5(r, "200x200 grid", &cloud2(200, 200, &[]), 200.0);
+    }
+    // the same point listed two / three times IN A ROW (41 = 37 + 4 entries; 41 is prime as the index lists need)
+    let rep2 = with_repeats(&lattice::<2>(37, 1.0, [0.0, 0.0]));
+    let rep3 = with_repeats(&lattice::<3>(37, 1.0, [0.0, 0.0, 0.0]));
+    search_family(r, "37-point 2D lattice with point 5 listed twice, point 20 three times and the last point twice in a row", &rep2, 1.0);
+    search_family(r, "37-point 3D lattice with point 5 listed twice, point 20 three times and the last point twice in a row", &rep3, 1.0);
+    poisson_w5(r, "37-point 2D lattice with point 5 listed twice, point 20 three times and the last point twice in a row", &rep2, 1.0, true);
+    poisson_w5(r, "37-point 3D lattice with point 5 listed twice, point 20 three times and the last point twice in a row", &rep3, 1.0, true);
+    for (s, o) in [(1.0, 1.0e6), (1.0, 1.0e8), (1.0e-6, 0.0), (1.0e-9, 0.0), (1.0e3, 0.0), (1.0e-3, 1.0e3), (1.0, -1.0e6)] {
+        search_family(r, &format!("131-point 2D lattice scaled by {:e} at offset {:e}", s, o), &lattice::<2>(131, s, [o, -2.0 * o]), s);
+        search_family(r, &format!("131-point 3D lattice scaled by {:e} at offset {:e}", s, o), &lattice::<3>(131, s, [o, -2.0 * o, 0.5 * o]), s);
+    }
+    let t2: Vec<([f64; 2], f64)> = vec![([0.0, 0.0], 0.0), ([3.0, 4.0], 5.0), ([-12.0, 5.0], 13.0), ([0.0, -7.0], 7.0), ([1.0, 0.0], 1.0)];
+    let t3: Vec<([f64; 3], f64)> = vec![([0.0, 0.0, 0.0], 0.0), ([1.0, 2.0, 2.0], 3.0), ([-2.0, 3.0, 6.0], 7.0), ([0.0, 0.0, -4.0], 4.0)];
+    let p30 = (2.0_f64).powi(-30);
+    for (s, o) in [(1.0, 0.0), (1.0, 1.0e8), (p30, 0.0), (1024.0, 0.0)] {
+        ulp_checks(r, &format!("131-point 2D lattice scaled by {:e} at offset {:e}", s, o), &lattice::<2>(131, s, [o, -o]), s, &t2, false);
+        ulp_checks(r, &format!("131-point 3D lattice scaled by {:e} at offset {:e}", s, o), &lattice::<3>(131, s, [o, -o, o]), s, &t3, false);
+    }
+    // ---- Poisson disk: 2D and 3D, sizes past 32 / 64 / 1000, far / tiny / huge, all visiting orders, radius relations
+    for n in [37usize, 67, 1009] {
+        poisson_w5(r, &format!("{}-point 2D lattice", n), &lattice::<2>(n, 1.0, [0.0, 0.0]), 1.0, true);
+        poisson_w5(r, &format!("{}-point 3D lattice", n), &lattice::<3>(n, 1.0, [0.0, 0.0, 0.0]), 1.0, true);
+    }
+    for (s, o, exact) in [(1.0, 1.0e6, true), (1.0, 1.0e8, true), (1.0e-6, 0.0, false), (1.0e-9, 0.0, false), (1.0e3, 0.0, true), (1.0e-3, 1.0e3, false)] {
+        poisson_w5(r, &format!("131-point 2D lattice scaled by {:e} at offset {:e}", s, o), &lattice::<2>(131, s, [o, -2.0 * o]), s, exact);
+        poisson_w5(r, &format!("131-point 3D lattice scaled by {:e} at offset {:e}", s, o), &lattice::<3>(131, s, [o, -2.0 * o, 0.5 * o]), s, exact);
+    }
+    // exact duplicates and exact-tie radii on the unit grids (3-4-5 pairs): radius exactly a pairwise distance, one ulp either side
+    let tie_radii: Vec<(String, f64)> = [1.0f64, 2.0, 5.0].iter().flat_map(|&x| vec![(format!("exactly {}", x), x), (format!("one ulp above {}", x), ulp_up(x)), (format!("one ulp below {}", x), ulp_down(x))]).chain([("0".to_string(), 0.0), ("1e160".to_string(), 1.0e160)]).collect();
+    let g2 = cloud2(7, 7, &[0, 10, 24, 48]);
+    poisson_family(r, "7x7 grid + duplicates of points 0, 10, 24, 48", &g2, &working_lists(g2.len()), &tie_radii, true);
+    let g3 = cloud3(5, 5, 2, &[0, 17, 47]);
+    poisson_family(r, "5x5x2 grid + duplicates of points 0, 17, 47", &g3, &working_lists(g3.len()), &tie_radii, true);
+    sampling_w5(r);
+    hulls_w5(r);
+    pivots_w5(r);
+    ulp_checks(r, "1009-point 2D lattice", &lattice::<2>(1009, 1.0, [0.0, 0.0]), 1.0, &t2, false);
+    ulp_checks(r, "7x7 grid + duplicates of points 0, 10, 24, 48", &cloud2(7, 7, &[0, 10, 24, 48]), 1.0, &t2, true);
+    ulp_checks(r, "5x5x2 grid + duplicates of points 0, 17, 47", &cloud3(5, 5, 2, &[0, 17, 47]), 1.0, &t3, true);
 }
